@@ -136,8 +136,17 @@ class ContractMixin(CallMixin):
             return VBool(self.pytype_name(st, v) == tn)
         if name == "sameobj":
             a, b = args
-            return VBool(isinstance(a, VRef) and isinstance(b, VRef) and self.canon(st, a).root == self.canon(st, b).root
-                         and self.canon(st, a).path == self.canon(st, b).path)
+            if not (isinstance(a, VRef) and isinstance(b, VRef)):
+                return VBool(False)
+            ca, cb = self.canon(st, a), self.canon(st, b)
+            if ca.root == cb.root and ca.path == cb.path:
+                return VBool(True)
+            if ca.root.startswith("p:") and cb.root.startswith("p:"):
+                # two different access paths into the entry state: the heap model keeps them apart but cannot exclude
+                # that the caller passes the same object twice - neither answer may be assumed
+                raise Unsupported("sameobj() between two objects of the entry state reached by different access paths "
+                                  "(aliasing between parameters is not modelled)")
+            return VBool(False)  # an object allocated after entry is distinct from everything that existed before
         if name == "opaque":
             # opaque("name", "type", args...) : uninterpreted spec function
             ok, fname = pyconst(args[0])
@@ -272,6 +281,12 @@ class ContractMixin(CallMixin):
 
     def call_qual(self, st, qualname, args, kw, node):
         pol = self.ctx.config.get("calls", {})
+        vc = self.ctx.contracts.get(st.ghost.get("__verifying__"))
+        if vc is not None and isinstance(vc.flags.get("external"), dict) and qualname in vc.flags["external"]:
+            # the contract under verification declares this callee external explicitly: the callee's own contract
+            # (e.g. an LP-model contract that is not written for call sites) is not applied; the call is opaque
+            # and recorded in the assumed list like any other external call
+            return self.call_external(st, qualname, args, kw, node)
         if qualname in self.ctx.contracts and qualname not in self.ctx.config.get("inline", ()):
             return self.apply_contract(st, self.ctx.contracts[qualname], args, kw, node)
         fi = front.find_function(qualname)
@@ -507,9 +522,7 @@ class ContractMixin(CallMixin):
                 return self.fresh_of(st, rty, base)
         name = f"pure:{contract.qualname}@{st.ghost.get('__epoch__', 0)}[{'|'.join(tag)}]"
         v = self.mk_abstract(rty, name, tuple(terms))
-        if isinstance(v, H):
-            return self.alloc(st, v)
-        return v
+        return self.heapify(st, v)
 
     def flat_scalar_terms(self, st, v):
         if isinstance(v, VNone):
